@@ -83,7 +83,7 @@ def coq_defs(ob, k):
     al = []
     for a in atoms:
         al.append('{| sa_x := %s; sa_y := %s; sa_z := %s; sa_h := %s; sa_part := %s; sa_radius := %s; sa_qpeak := %s; sa_an := %s |}' % (
-            fl(a.x), fl(a.y), fl(a.z), cbool(a.ishydrogen), cz(a.part.n), fl(a.radius), cbool(a.qpeak), cz(a.an)))
+            fl(a.x), fl(a.y), fl(a.z), cbool(a.ishydrogen), cz(a.part.n), fl(gs.radius(a.element) if a.element else a.radius), cbool(a.qpeak), cz(a.an)))      # radius: by element symbol from the table
     d.append('Definition ats%d : list (satom (T:=float)) := %s.' % (k, clist(al)))
     ol = []
     for o in ops:
